@@ -1,6 +1,7 @@
 package main
 
 import (
+	"regexp/syntax"
 	"encoding/json"
 	"fmt"
 	"go/types"
@@ -52,6 +53,15 @@ func (e *Engine) evaluatedValue(v *types.Var) (interface{}, bool) {
 
 // groundFacts asserts the evaluated initial value of global v (term t).
 func (c *FnCtx) groundFacts(v *types.Var, t *Term) {
+	// regular expressions compiled from a literal at package initialisation: not nil, and the number of capture
+	// groups of the literal (MustCompile panics at init, i.e. before any analysis, if the literal is malformed)
+	if pat, ok := c.eng.regexpLits()[v.Pkg().Name()+"."+v.Name()]; ok {
+		if re, err := syntax.Parse(pat, syntax.Perl); err == nil {
+			c.smt.fun("sf_reGroups", []string{SInt}, SInt)
+			c.smt.axiom("regexp:"+v.Name(), fmt.Sprintf("(and (not (= %s 0)) (= (sf_reGroups %s) %d))", t.Op, t.Op, re.MaxCap()), true, t.Op)
+			c.trustedUsed["regexp literal "+v.Name()+": compiled at package initialisation, "+fmt.Sprint(re.MaxCap())+" capture groups (read from the source)"] = true
+		}
+	}
 	val, ok := c.eng.evaluatedValue(v)
 	if !ok {
 		return
@@ -125,4 +135,11 @@ func (c *FnCtx) groundValue(t *Term, gt types.Type, val interface{}) string {
 		return "(and " + strings.Join(parts, " ") + ")"
 	}
 	return ""
+}
+
+func (e *Engine) regexpLits() map[string]string {
+	if e.reLits == nil {
+		e.reLits = e.regexpLiterals()
+	}
+	return e.reLits
 }
